@@ -493,7 +493,7 @@ def prepare_order():
             else:
                 rc2, out2 = _coqc_gen("Check_PrepareSteps.v")
                 log = out2
-                coq_ok = rc2 == 0 and out2.count("Closed under the global context") >= 3 and "Axioms:" not in out2
+                coq_ok = rc2 == 0 and out2.count("Closed under the global context") >= 4 and "Axioms:" not in out2
         finally:
             fcntl.flock(lk, fcntl.LOCK_UN)
     _order.update(paths=paths, coq_ok=coq_ok, infra=infra, log=log)
@@ -502,6 +502,8 @@ def prepare_order():
 
 def run_prep(c):
     o = prepare_order()
+    if c.get("path") == "run":
+        return [tp.skeleton(o["paths"]["steps_run"]), bool(o["coq_ok"])]
     steps = o["paths"]["steps_cleanup_true" if c["cleanup"] else "steps_cleanup_false"]
     return [tp.skeleton(steps), bool(o["coq_ok"])]
 
@@ -768,7 +770,7 @@ def emit_case(c) -> str:
     if k == "map":
         return f"(CMap {map_lit(c)} {cbool(bool(c.get('claimed')))})"
     if k == "prep":
-        return f"(CPrepOrder {cbool(c['cleanup'])})"
+        return "CRunOrder" if c.get("path") == "run" else f"(CPrepOrder {cbool(c['cleanup'])})"
     if k == "classify":
         return f"(CClassify {cnat(c['tag'])})"
     if k == "mutate":
@@ -1125,7 +1127,8 @@ def generate(rng, tier, mult):
 
     registry = list(storage_registry)
     quick = tier == "quick"
-    cases = [{"kind": "prep", "cleanup": False}, {"kind": "prep", "cleanup": True}]
+    cases = [{"kind": "prep", "cleanup": False}, {"kind": "prep", "cleanup": True},
+             {"kind": "prep", "cleanup": False, "path": "run"}]
     n_pipe = (25 if quick else 330) * mult
     n_mapc = (12 if quick else 200) * mult
     n_req = (22 if quick else 270) * mult
@@ -1182,7 +1185,7 @@ def generate(rng, tier, mult):
 # ====================================================================================== bookkeeping
 def nontrivial_key(c):
     if c["kind"] in ("prep", "classify"):
-        return (c["kind"], c.get("cleanup"), c.get("tag"))
+        return (c["kind"], c.get("cleanup"), c.get("tag"), c.get("path"))
     fs = c["p"]["funcs"] if c["kind"] == "call" else c["funcs"]
     if c.get("tag", "").startswith("valid") and len(fs) < 2:
         return None
@@ -1211,7 +1214,7 @@ def distribution(c):
 def finding_id(c, impl_obs, kind):
     """No known findings; the id only groups violations so that one replay per class of failing cases is reported."""
     if c["kind"] == "prep":
-        return f"prepare_order:cleanup={c['cleanup']}"
+        return f"prepare_order:cleanup={c['cleanup']}:{c.get('path', 'map')}"
     if c["kind"] == "classify":
         return "classification_table"
     if c["kind"] == "mutate":
